@@ -94,6 +94,11 @@ def gen_params(ctx):
         out.append(calib.random_params(rng, True, quick=True, **force))
     for k in range(2 if ctx.quick else 20):  # a splice exactly on a reference location
         out.append(calib.random_params(rng, True, quick=True, nta=int(rng.integers(1, 3)), nmatch=int(rng.choice([0, 1])), nx=int(rng.integers(16, 24)), noise=0.01, nt=int(rng.integers(1, 3)), ta_on_ref=True))
+    for rev in (False, True):  # two splices, listed upstream-first and downstream-first, no matching sections (so alpha outside the sections is exercised)
+        for _ in range(1 if ctx.quick else 6):
+            q = calib.random_params(rng, True, quick=True, nta=2, nmatch=0, nx=int(rng.integers(22, 30)), noise=0.01, nt=int(rng.integers(2, 4)), nbath=3, nstretch_max=1)
+            q["ta_reversed"] = rev
+            out.append(q)
     base = calib.random_params(rng, True, quick=True, nmatch=0, noise=0.01, nta=0, nt=2)
     for span in ([10.0, 10000.0] if ctx.quick else [10.0, 100.0, 1000.0, 10000.0]):
         q = dict(base); q["span"] = span; q["family"] = "scale"
